@@ -68,6 +68,7 @@ def run(res, proof):
     quick = res.tier == 'quick'
     n = 300 if quick else 5000
     jobs, metas = [], []
+    prev = None
     for _ in range(n):
         S = sysgen.gen_system(rng)
         txt = sysgen.render(S, rng)
@@ -75,6 +76,11 @@ def run(res, proof):
         jobs.append({'text': txt, 'mode': 'full', 'lines': single, 'check_release': True}); metas.append(('full', S, txt))
         if rng.random() < 0.3:
             jobs.append({'text': txt, 'mode': 'full', 'ignore': ['reaction']}); metas.append(('ignore-reactions', S, txt))
+        if prev is not None and rng.random() < 0.5:
+            # the same configured session read (and released) another system before: names are reused with other meanings
+            jobs.append({'text': txt, 'mode': 'full', 'session': [prev]}); metas.append(('after-another-document', S, txt))
+        prev = txt
+    prev_of = {j['text']: (j.get('session') or [None])[0] for j in jobs if j.get('session')}
     results = reader.run_jobs(jobs)
     for (mode, S, txt), r in zip(metas, results):
         res.evaluations += 1
@@ -92,7 +98,7 @@ def run(res, proof):
         d = first_diff(exp, got)
         if d:
             sect = d.split('.')[1].split('[')[0] if '.' in d else 'summary'
-            res.violation('attribute-mismatch:%s:%s' % (mode, sect), {'text': txt}, d, 'exactly the declared attributes')
+            res.violation('attribute-mismatch:%s:%s' % (mode, sect), {'text': txt, 'session': [m[2] for m in metas if m[2] == prev_of.get(txt)]}, d, 'exactly the declared attributes')
         if r.get('identity'):
             res.violation('not-identical-singletons', {'text': txt}, '; '.join(r['identity'][:3]), 'objects referenced by name are the identical singletons')
         if r.get('line_vs_doc'):
